@@ -286,8 +286,10 @@ class C14:
             runs.append({'seed': sd, 'rc': rc})
             if rc == 0:
                 continue
-            if 'Undefined Behavior' in log or 'Data race' in log or 'DIFF thread' in log or 'PANIC thread' in log or 'panicked at' in log or rc == 124:
-                what = ('Miri reports undefined behaviour / a data race' if ('Undefined Behavior' in log or 'Data race' in log)
+            if ('Undefined Behavior' in log or 'Data race' in log or 'DIFF thread' in log or 'PANIC thread' in log or 'panicked at' in log
+                    or 'deadlock' in log.lower() or rc == 124):
+                what = ('Miri reports a deadlock' if 'deadlock' in log.lower()
+                        else 'Miri reports undefined behaviour / a data race' if ('Undefined Behavior' in log or 'Data race' in log)
                         else 'a call panicked, or a thread observed other results than the sequential run, under Miri' if rc != 124
                         else 'the Miri run did not terminate (deadlock?)')
                 out.violations.append({'property': 'C14', 'kind': 'miri', 'what': what + ' (harness_miri, -Zmiri-seed=%d, %d threads)' % (sd, nthreads),
